@@ -160,12 +160,13 @@ def _evaluate(mod, case, S):
 # --------------------------------------------------------------------------------------------
 # one shard = one Hypothesis search (repeated with found buckets muted)
 # --------------------------------------------------------------------------------------------
-class _Stop(Exception):
-    pass
+class _Stop(BaseException):
+    """Ends a Hypothesis run from inside the property body (shrink budget used up)."""
 
 
 def run_shard(args):
     pid, tier, seed, shard, n_cases, shrink_budget = args
+    shrink_seconds = 60.0 if tier == "quick" else 300.0
     out = {
         "evals": 0,
         "nt": set(),
@@ -209,8 +210,10 @@ def run_shard(args):
                     return
                 if st["target"] is not None:
                     st["after"] += 1
-                    if st["after"] > shrink_budget and case_hash(case) != st["best_hash"]:
-                        return
+                    if st.get("t_fail") is not None and time.time() - st["t_fail"] > shrink_seconds:
+                        st["after"] = shrink_budget + 1  # shrinking effort is also bounded in wall time
+                    if st["after"] > shrink_budget:
+                        raise _Stop()  # the best failing case so far is kept in st["best"]
                 try:
                     res = evaluate(mod, case)
                 except HarnessError as he:
@@ -231,8 +234,11 @@ def run_shard(args):
                     b = v.bucket
                     if b in muted:
                         continue
+                    if v.clause.endswith(".hang"):
+                        st["after"] = shrink_budget + 1  # never shrink through cases that hang
                     if st["target"] is None:
                         st["target"] = b
+                        st["t_fail"] = time.time()
                     if b == st["target"]:
                         hit = v
                     elif b not in st["pending"]:
